@@ -138,6 +138,64 @@ func c01EvalLin(v ssa.Value, assume map[ssa.Value]bool, depth int) (c01Lin, bool
 		if b, ok := x.Call.Value.(*ssa.Builtin); ok && b.Name() == "len" {
 			return c01LenLin(x.Call.Args[0]), true
 		}
+		// a same-module helper computing the size (e.g. wireLen(length, encrypted)): evaluate its single
+		// feasible return under the assumptions carried by the arguments, parameters replaced by the arguments
+		if g := x.Call.StaticCallee(); isModuleFn(g) && g.Signature.Results().Len() == 1 && isBasic(g.Signature.Results().At(0).Type()) && len(g.Params) == len(x.Call.Args) {
+			assume2 := map[ssa.Value]bool{}
+			for i, par := range g.Params {
+				if val, ok := assume[x.Call.Args[i]]; ok {
+					assume2[par] = val
+				}
+			}
+			cuts := newCuts()
+			for _, b := range g.Blocks {
+				ifi := blockIf(b)
+				if ifi == nil {
+					continue
+				}
+				a := condAtom(ifi.Cond)
+				if val, ok := assume2[a.X]; ok && a.Op == token.ILLEGAL {
+					if a.Neg {
+						val = !val
+					}
+					if val {
+						cuts.AddEdges(Edge{b, 1})
+					} else {
+						cuts.AddEdges(Edge{b, 0})
+					}
+				}
+			}
+			var feasible []*ssa.Return
+			for _, b := range g.Blocks {
+				if len(b.Instrs) == 0 {
+					continue
+				}
+				if ret, ok := b.Instrs[len(b.Instrs)-1].(*ssa.Return); ok && findPath(entryPoint(g), Target{Instr: ret}, cuts) != nil {
+					feasible = append(feasible, ret)
+				}
+			}
+			if len(feasible) == 1 {
+				inner, ok := c01EvalLin(feasible[0].Results[0], assume2, depth+1)
+				if ok {
+					out := c01Lin{k: inner.k, atoms: map[ssa.Value]int64{}}
+					for at, cf := range inner.atoms {
+						sub := c01Lin{atoms: map[ssa.Value]int64{at: 1}}
+						for i, par := range g.Params {
+							if at == ssa.Value(par) {
+								sub, _ = c01EvalLin(x.Call.Args[i], assume, depth+1)
+							}
+						}
+						for j := int64(0); j < cf; j++ {
+							out = out.add(sub, 1)
+						}
+						for j := int64(0); j > cf; j-- {
+							out = out.add(sub, -1)
+						}
+					}
+					return out, true
+				}
+			}
+		}
 	}
 	return c01Lin{atoms: map[ssa.Value]int64{v: 1}}, true // opaque atom
 }
